@@ -15,6 +15,7 @@ package internal_test
 
 import (
 	"net"
+	"sync/atomic"
 	"strings"
 	"testing"
 	"time"
@@ -214,6 +215,132 @@ func TestVerifC15RealConnState(t *testing.T) {
 			return
 		}
 		c15Finish(m, w, kinds, 1)
+	}
+	c15FlushKinds(m, kinds)
+}
+
+// ---- scripted connection: transitions that complete between two calls of the watcher
+
+func c15QuickReconnect(m *vk.M, w *c15World) {
+	r := w.r
+	w.tag = "after-quick-reconnect"
+	g := newC15Gen(w, r, false)
+	for i := r.Intn(3); i > 0; i-- {
+		g.putOrDel(true)
+	}
+	w.exec(c15Op{Op: "sub", X: r.Intn(3) == 0})
+	if r.Intn(2) == 0 {
+		w.exec(c15Op{Op: "sub", X: r.Intn(2) == 0})
+	}
+	if w.stopped() {
+		return
+	}
+	conn := internal.C15NewScriptConn(connectivity.Ready)
+	internal.C15WatchScripted(conn, func() {
+		atomic.AddInt64(&w.fired, 1)
+		go func() {
+			internal.C15Reload(w.eps, w.etcd)
+			w.reloaded <- struct{}{}
+		}()
+	})
+	settle := func(want connectivity.State) bool {
+		return vk.WaitUntil(c15Watchdog, func() bool {
+			s, parked, _ := conn.Settled()
+			return s == want && parked
+		})
+	}
+	if !settle(connectivity.Ready) {
+		w.inconclusive("state watcher did not start waiting on the scripted connection")
+		return
+	}
+	rounds := 1 + r.Intn(3)
+	for round := 0; round < rounds && !w.stopped(); round++ {
+		for i := 0; i < 2 && !w.stopped(); i++ {
+			g.putOrDel(r.Intn(2) == 0)
+			w.exec(c15Op{Op: "pump", M: r.Intn(3)})
+		}
+		if w.stopped() {
+			return
+		}
+		for i := 1 + r.Intn(3); i > 0; i-- {
+			g.putOrDel(r.Intn(2) == 0) // missed: the connection is about to be lost
+		}
+		nb := w.etcd.watchCount()
+		expected := internal.C15ListenedKeys(w.eps)
+		before := atomic.LoadInt64(&w.fired)
+		_, _, reads0 := conn.Settled()
+		quick := r.Intn(3) > 0
+		if quick {
+			// the connection is Ready again as soon as the watcher has read TransientFailure
+			w.ops = append(w.ops, c15Op{Op: "conn", S: "failure, ready again right after the watcher read it"})
+			conn.FlipAfterRead(connectivity.TransientFailure, connectivity.Ready)
+			conn.Set(connectivity.TransientFailure)
+		} else {
+			w.ops = append(w.ops, c15Op{Op: "conn", S: "failure, connecting, ready (each after the watcher settled)"})
+			conn.Set(connectivity.TransientFailure)
+			if !settle(connectivity.TransientFailure) {
+				w.inconclusive("state watcher did not settle on TransientFailure")
+				return
+			}
+			conn.Set(connectivity.Connecting)
+			if !settle(connectivity.Connecting) {
+				w.inconclusive("state watcher did not settle on Connecting")
+				return
+			}
+			conn.Set(connectivity.Ready)
+		}
+		// Decisive state: the connection is Ready and the watcher is parked waiting for Ready
+		// to change - it will do nothing more until the next transition.
+		if !settle(connectivity.Ready) {
+			w.inconclusive("state watcher did not settle on Ready after the reconnect")
+			return
+		}
+		_, _, reads1 := conn.Settled()
+		sawLoss := reads1[connectivity.TransientFailure] > reads0[connectivity.TransientFailure]
+		got := int(atomic.LoadInt64(&w.fired) - before)
+		if got == 0 {
+			w.violate("C15:reconnect:no-reload:quick-reconnect", "the connection went Ready -> TransientFailure -> Ready (quick=%v; the watcher read TransientFailure: %v) and the state watcher is parked waiting for Ready to change, but it never started a reload; %d changes made while down stay invisible", quick, sawLoss, w.pending())
+			return
+		}
+		if got > 1 {
+			w.inconclusive("state watcher started %d reloads for one reconnect", got)
+			return
+		}
+		select {
+		case <-w.reloaded:
+		case <-time.After(c15Watchdog):
+			w.reloadBlocked("reload started by the state watcher (scripted connection)")
+			return
+		}
+		m.Count("scripted_reconnects", 1)
+		if quick {
+			m.Count("scripted_reconnects_between_two_watcher_calls", 1)
+		}
+		w.afterReload(nb, expected, "after-quick-reconnect")
+	}
+}
+
+func TestVerifC15QuickReconnect(t *testing.T) {
+	logx.Disable()
+	m := vk.New(t, "C15", "the real stateWatcher.watch loop on a scripted connection with gRPC's WaitForStateChange semantics; losses whose recovery completes right after the watcher read TransientFailure (between two of its calls) and slow ones; once the watcher is parked on Ready a reload must have been started; then "+c15Rule)
+	defer m.Done()
+	defer c15Wall(m, time.Now())
+	kinds := map[string]int64{}
+	n := vk.N(80, 2000)
+	for idx := 1; idx <= n; idx++ {
+		if !m.Only(idx) {
+			continue
+		}
+		r := m.Rand("quickreconnect", idx)
+		w := newC15World(m, idx, r, []string{"c15.quick"})
+		if w.incon {
+			return
+		}
+		c15QuickReconnect(m, w)
+		if w.incon {
+			return
+		}
+		c15Finish(m, w, kinds, 13)
 	}
 	c15FlushKinds(m, kinds)
 }
